@@ -468,12 +468,16 @@ Lemma JF_step n0 u0 d0 dk Ts fa st ev st' :
   0 <= Dt -> 0 <= Da ->
   zsafe x st -> zsafe x st' -> JF n0 u0 d0 dk Ts fa st -> fair_ev fa st ev -> net_step st ev = Ok st' ->
   (G u0 d0 st' \/ JR x Da d0 (Ts + dk + Da) (fa_after Dt Da fa ev st') st' \/
-   (Fb u0 d0 dk (fa_after Dt Da fa ev st') st' /\ wposN 0 (fa_after Dt Da fa ev st') st')) \/
+   (Fb u0 d0 dk (fa_after Dt Da fa ev st') st' /\ wposN 0 (fa_after Dt Da fa ev st') st' /\ net_now st' x <= Ts)) \/
   JF n0 u0 d0 dk Ts (fa_after Dt Da fa ev st') st'.
 Proof.
   intros HDt HDa HR HR' HJ Hfe H.
   pose proof (JF_clock _ _ _ _ _ _ _ HJ) as Hclk.
-  destruct HJ as (HB & Hw & Hn0 & Hall & _).
+  destruct HJ as (HB & Hw & Hn0 & Hall & j0 & t0 & Hj0 & Ht0).
+  assert (Hclk' : net_now st' x <= Ts).
+  { rewrite (net_step_now _ _ _ x H). destruct ev; try lia.
+    pose proof HB as (_ & _ & _ & Hb0 & _). pose proof (Hb0 x t0 (nth_error_In _ _ Ht0)) as Hb1.
+    pose proof (tick_respects_dl fa st d x j0 t0 Hfe Ht0 ltac:(lia)). specialize (Hall j0 t0 Hj0 Ht0). lia. }
   pose proof HB as (_ & _ & (Hlen & _) & _ & Hdk & _).
   destruct (fb_step n0 u0 d0 dk fa st ev st' HDt HDa HR HR' HB Hw Hfe H) as [HG | [HJR | (HB' & Hw' & _)]].
   - left. left. exact HG.
@@ -490,7 +494,7 @@ Proof.
     { intros j t Hj Hn. apply (Hall j t Hj). apply (fa_after_dl_old Dt Da fa ev st' x j t); [lia | exact Hn]. }
     destruct (old_tracked_dec (fa_dl (fa_after Dt Da fa ev st') x) n0) as [Hex | Hnone].
     + right. split; [exact HB'|]. split; [exact Hw'|]. split; [exact Hlen'|]. split; [exact Hall' | exact Hex].
-    + left. right. right. split; [exact HB'|].
+    + left. right. right. split; [exact HB'|]. split; [|exact Hclk'].
       intros j q t _ Hn Hd. destruct (Nat.lt_ge_cases j n0) as [Hj | Hj]; [exfalso; exact (Hnone j t Hj Hd)|].
       exact (Hw' j q t Hj Hn Hd).
 Qed.
@@ -515,7 +519,7 @@ Lemma JK0_step u0 d0 dk T fa st ev st' :
   0 <= Dt -> 0 <= Da ->
   zsafe2 st -> zsafe2 st' -> JK0 u0 d0 dk T fa st -> fair_ev fa st ev -> net_step st ev = Ok st' ->
   (G u0 d0 st' \/ JR x Da d0 (T + dk + Da) (fa_after Dt Da fa ev st') st' \/
-   Ab u0 d0 dk (fa_after Dt Da fa ev st') st') \/
+   (Ab u0 d0 dk (fa_after Dt Da fa ev st') st' /\ net_now st' x <= T)) \/
   JK0 u0 d0 dk T (fa_after Dt Da fa ev st') st'.
 Proof.
   intros HDt HDa (HR & HM) (HR' & HM') (HB & Hw & Hcl & Hclk) Hfe H.
@@ -539,7 +543,7 @@ Proof.
     pose proof (net_run_skew2 [ev] st st' y x ltac:(cbn [net_run]; rewrite H; reflexivity)) as Hsk. lia.
   - destruct (closed_or_open st' HR') as [Hcl' | Hop'].
     + right. split; [exact HB'|]. split; [exact Hw'|]. split; [exact Hcl' | exact Hclk'].
-    + left. right. right. split; [exact HB'|]. split; [exact Hw' | exact Hop'].
+    + left. right. right. split; [|exact Hclk']. split; [exact HB'|]. split; [exact Hw' | exact Hop'].
 Qed.
 
 (* ---------------------------------------------------------------------------------------- *)
@@ -814,4 +818,308 @@ Proof.
       split; [lia|].
       intros e He. destruct (HN' x) as (_ & _ & (_ & Hb) & _). unfold net_sock in He. rewrite He in Hb.
       unfold timer_bounded in Hb. unfold net_now in *. lia.
+Qed.
+
+(* ---------------------------------------------------------------------------------------- *)
+(* one round                                                                                 *)
+(* ---------------------------------------------------------------------------------------- *)
+Lemma JD1_mono u0 d0 dk T T' fa st : T <= T' -> JD1 u0 d0 dk T fa st -> JD1 u0 d0 dk T' fa st.
+Proof.
+  intros HT (A & B & C & D). split; [exact A|]. split; [exact B|]. split; [lia|].
+  intros e He. specialize (D e He). lia.
+Qed.
+
+Lemma S2_mono u0 d0 dk T T' fa st : T <= T' -> S2 u0 d0 dk T fa st -> S2 u0 d0 dk T' fa st.
+Proof.
+  intros HT (A & i & p & t & B1 & B2 & B3 & B4 & B5). split; [exact A|].
+  exists i, p, t. split; [exact B1|]. split; [exact B2|]. split; [exact B3|]. split; [lia | exact B5].
+Qed.
+
+Section Round.
+Variables u0 d0 dk B : Z.
+Variable stf : net.   (* the last state of the run *)
+Hypothesis HDt : 0 <= Dt.
+Hypothesis HDa : 0 <= Da.
+Hypothesis Hlate : B < net_now stf x.
+Hypothesis Hskf : net_now stf y - net_now stf x = dk.
+
+(* the run from [st] on reaches, no later than B on x's clock, a state in which something has
+   progressed; the rest of the run is again reliable *)
+Definition Res (st : net) (evs : list net_event) : Prop :=
+  exists pre post fa1 st1,
+    evs = pre ++ post /\ net_run st pre = Ok st1 /\ net_run st1 post = Ok stf /\
+    run_all zsafe2 st1 post /\ fair_run Dt Da fa1 st1 post /\ once_run Dt Da fa1 st1 post /\
+    NI st1 /\ opts_ok st1 /\ dl_sync Da fa1 st1 /\ dlb fa1 st1 /\
+    G u0 d0 st1 /\ net_now st1 x <= B.
+
+Definition Run (fa : fair_aux) (st : net) (evs : list net_event) : Prop :=
+  run_all zsafe2 st evs /\ fair_run Dt Da fa st evs /\ once_run Dt Da fa st evs /\ net_run st evs = Ok stf.
+
+Lemma res_shift pre0 post0 st stm :
+  net_run st pre0 = Ok stm -> Res stm post0 -> Res st (pre0 ++ post0).
+Proof.
+  intros Hp (pre & post & fa1 & st1 & -> & A1 & A2 & Rest).
+  exists (pre0 ++ pre), post, fa1, st1. split; [rewrite app_assoc; reflexivity|].
+  split; [eapply net_run_app; eassumption|]. split; [exact A2 | exact Rest].
+Qed.
+
+(* the progress state was reached by a step from a state in which nothing had progressed *)
+Lemma res_here fa0 st0 ev0 st1 post :
+  NI st0 -> opts_ok st0 -> dl_sync Da fa0 st0 -> dlb fa0 st0 -> net_now st0 x <= B ->
+  read_off (net_get st0 y) = d0 ->
+  (una_off (net_get st0 x) = u0 \/ d0 < read_off (net_get st1 y)) ->
+  fair_ev fa0 st0 ev0 -> net_step st0 ev0 = Ok st1 -> G u0 d0 st1 ->
+  Run (fa_after Dt Da fa0 ev0 st1) st1 post -> Res st1 post.
+Proof.
+  intros HN Ho Hsy Hb Hclk Hrd Hwhy Hfe Hs HG (R1 & R2 & R3 & R4).
+  exists [], post, (fa_after Dt Da fa0 ev0 st1), st1.
+  split; [reflexivity|]. split; [reflexivity|]. split; [exact R4|]. split; [exact R1|]. split; [exact R2|].
+  split; [exact R3|]. split; [exact (NI_step _ _ _ HN Hs)|]. split; [exact (opts_step _ _ _ Ho Hs)|].
+  split; [exact (fa_after_sync Dt Da _ _ _ _ Hsy Hfe Hs)|]. split; [exact (dlb_after _ _ _ _ HDt Hb Hfe Hs)|].
+  split; [exact HG|].
+  rewrite (net_step_now _ _ _ x Hs). destruct ev0; try lia.
+  exfalso. destruct (tick_offsets _ _ _ x Hs) as (E1 & _).
+  rewrite (net_step_tick _ _ _ Hs) in HG, Hwhy, E1. destruct (tick_same st0 d y) as (_ & _ & E3 & _).
+  unfold G, read_off in *. rewrite E3 in HG, Hwhy.
+  destruct Hwhy as [X | X]; [destruct HG; lia | lia].
+Qed.
+
+Lemma Fb_res fa0 st0 ev0 st1 post :
+  Fb u0 d0 dk fa0 st0 -> net_now st0 x <= B ->
+  fair_ev fa0 st0 ev0 -> net_step st0 ev0 = Ok st1 -> G u0 d0 st1 ->
+  Run (fa_after Dt Da fa0 ev0 st1) st1 post -> Res st1 post.
+Proof.
+  intros (HN & Ho & Hsy & Hb & _ & Hu & Hrd & _) Hclk Hfe Hs HG HRun.
+  apply (res_here fa0 st0 ev0 st1 post HN Ho Hsy Hb Hclk Hrd (or_introl Hu) Hfe Hs HG HRun).
+Qed.
+
+(* R with the deadline bound and the clock skew *)
+Definition JR' (T : Z) (fa : fair_aux) (st : net) : Prop :=
+  JR x Da d0 T fa st /\ dlb fa st /\ net_now st y - net_now st x = dk.
+
+Lemma tailR T fa st evs :
+  T <= B + dk -> JR' T fa st -> Run fa st evs -> Res st evs.
+Proof.
+  intros HT (HJ & Hb & Hdk) (R1 & R2 & R3 & R4).
+  destruct (rel_leads Dt Da zsafe2 (fun fa s => JR' (B + dk) fa s) (fun _ s => d0 < read_off (net_get s y)) y (B + dk)
+              ltac:(intros fa0 st0 ((_ & _ & _ & _ & _ & A & _) & _); exact A)
+              ltac:(intros fa0 st0 ev0 st0' Z0 Z0' (J0 & B0 & K0) F0 _ S0;
+                    destruct (JR_step x Dt Da _ _ _ _ _ _ (proj1 Z0) (proj1 Z0') J0 F0 S0) as [X | X];
+                    [left; exact X | right; split; [exact X|]; split; [exact (dlb_after _ _ _ _ HDt B0 F0 S0)|];
+                     rewrite (net_step_now _ _ _ x S0), (net_step_now _ _ _ y S0); lia])
+              evs fa st stf (conj (JR_mono x Da _ _ _ _ _ HT HJ) (conj Hb Hdk)) R1 R2 R3 R4 ltac:(lia))
+    as (pre & post & fa1 & st1 & -> & Hp1 & Hp2 & HR1 & Hf1 & Ho1 & HQ & fa0 & st0 & ev0 & HJ0 & _ & Hfe0 & Hs0 & ->).
+  apply (res_shift pre post st st1 Hp1).
+  destruct HJ0 as ((HN0 & Ho0 & Hsy0 & Hrd0 & _ & Hclk0 & _) & Hb0 & Hdk0).
+  fold y in Hclk0, Hrd0.
+  apply (res_here fa0 st0 ev0 st1 post HN0 Ho0 Hsy0 Hb0); try assumption.
+  - lia.
+  - right. exact HQ.
+  - right. exact HQ.
+  - split; [exact HR1|]. split; [exact Hf1|]. split; [exact Ho1 | exact Hp2].
+Qed.
+
+Lemma jr_up T fa0 st0 ev0 st1 :
+  Fb u0 d0 dk fa0 st0 -> fair_ev fa0 st0 ev0 -> net_step st0 ev0 = Ok st1 ->
+  JR x Da d0 T (fa_after Dt Da fa0 ev0 st1) st1 -> JR' T (fa_after Dt Da fa0 ev0 st1) st1.
+Proof.
+  intros (_ & _ & _ & Hb & Hdk & _) Hfe Hs HJ. split; [exact HJ|]. split; [exact (dlb_after _ _ _ _ HDt Hb Hfe Hs)|].
+  rewrite (net_step_now _ _ _ x Hs), (net_step_now _ _ _ y Hs). lia.
+Qed.
+
+(* a phase: left within its deadline, towards progress, the reader phase, or the next phase *)
+Lemma phase_tail (J Next : fair_aux -> net -> Prop) (z : side) (T TRj : Z) :
+  (forall fa st, J fa st -> net_now st z <= T) ->
+  (forall fa st, J fa st -> Fb u0 d0 dk fa st /\ net_now st x <= B) ->
+  (forall fa st ev st', zsafe2 st -> zsafe2 st' -> J fa st -> fair_ev fa st ev -> once_ev fa ev -> net_step st ev = Ok st' ->
+     (G u0 d0 st' \/ JR x Da d0 TRj (fa_after Dt Da fa ev st') st' \/ Next (fa_after Dt Da fa ev st') st') \/
+     J (fa_after Dt Da fa ev st') st') ->
+  TRj <= B + dk -> T < net_now stf z ->
+  (forall fa1 st1 post, Next fa1 st1 -> Run fa1 st1 post -> Res st1 post) ->
+  forall fa st evs, J fa st -> Run fa st evs -> Res st evs.
+Proof.
+  intros Hclock Hbase Hstep HTR Hpast Hnext fa st evs HJ (R1 & R2 & R3 & R4).
+  destruct (rel_leads Dt Da zsafe2 J
+              (fun fa s => G u0 d0 s \/ JR x Da d0 TRj fa s \/ Next fa s) z T Hclock Hstep
+              evs fa st stf HJ R1 R2 R3 R4 Hpast)
+    as (pre & post & fa1 & st1 & -> & Hp1 & Hp2 & HR1 & Hf1 & Ho1 & HQ & fa0 & st0 & ev0 & HJ0 & _ & Hfe0 & Hs0 & ->).
+  apply (res_shift pre post st st1 Hp1).
+  assert (HRun1 : Run (fa_after Dt Da fa0 ev0 st1) st1 post) by (split; [exact HR1|]; split; [exact Hf1|]; split; [exact Ho1 | exact Hp2]).
+  destruct (Hbase _ _ HJ0) as (HB0 & Hclk0).
+  destruct HQ as [HG | [HJR | HN]].
+  - exact (Fb_res fa0 st0 ev0 st1 post HB0 Hclk0 Hfe0 Hs0 HG HRun1).
+  - exact (tailR TRj _ st1 post HTR (jr_up _ _ _ _ _ HB0 Hfe0 Hs0 HJR) HRun1).
+  - exact (Hnext _ _ _ HN HRun1).
+Qed.
+
+Lemma Ab_Fb fa st : Ab u0 d0 dk fa st -> Fb u0 d0 dk fa st.
+Proof. intros (A & _). exact A. Qed.
+
+Lemma tailS4 T4 fa st evs : T4 + Da <= B -> S4 u0 d0 dk T4 fa st -> Run fa st evs -> Res st evs.
+Proof.
+  intros HT. apply (phase_tail (S4 u0 d0 dk T4) (fun _ _ => False) x T4 (T4 + dk + Da)).
+  - intros fa0 st0 (_ & j & q & t & d & _ & _ & A1 & A2 & _). lia.
+  - intros fa0 st0 (HA & j & q & t & d & _ & _ & A1 & A2 & _). split; [exact (Ab_Fb _ _ HA) | lia].
+  - intros fa0 st0 ev0 st0' Z0 Z0' J0 F0 _ S0.
+    destruct (S4_step _ _ _ _ _ _ _ _ HDt HDa Z0 Z0' J0 F0 S0) as [[X | X] | X]; [left; left; exact X | left; right; left; exact X | right; exact X].
+  - lia.
+  - lia.
+  - intros fa1 st1 post [].
+Qed.
+
+Lemma tailS2 T2 fa st evs : T2 - dk + Dt + Da <= B -> S2 u0 d0 dk T2 fa st -> Run fa st evs -> Res st evs.
+Proof.
+  intros HT. apply (phase_tail (S2 u0 d0 dk T2) (S4 u0 d0 dk (T2 - dk + Dt)) y T2 (T2 + Da)).
+  - intros fa0 st0 (_ & i & p & t & _ & _ & A1 & A2 & _). lia.
+  - intros fa0 st0 (HA & i & p & t & _ & _ & A1 & A2 & _). split; [exact (Ab_Fb _ _ HA)|].
+    destruct (Ab_Fb _ _ HA) as (_ & _ & _ & _ & Hdk & _). lia.
+  - intros fa0 st0 ev0 st0' Z0 Z0' J0 F0 _ S0. exact (S2_step _ _ _ _ _ _ _ _ HDt HDa Z0 Z0' J0 F0 S0).
+  - lia.
+  - lia.
+  - intros fa1 st1 post HS4 HRun. exact (tailS4 (T2 - dk + Dt) fa1 st1 post ltac:(lia) HS4 HRun).
+Qed.
+
+Lemma tailD1 T fa st evs : T + 2 * Dt + Da <= B -> JD1 u0 d0 dk T fa st -> Run fa st evs -> Res st evs.
+Proof.
+  intros HT. apply (phase_tail (JD1 u0 d0 dk T) (S2 u0 d0 dk (T + dk + Dt)) x T (T + dk + Da)).
+  - intros fa0 st0 (_ & _ & A & _). exact A.
+  - intros fa0 st0 (HA & _ & A & _). split; [exact (Ab_Fb _ _ HA) | lia].
+  - intros fa0 st0 ev0 st0' Z0 Z0' J0 F0 O0 S0. exact (D1_step _ _ _ _ _ _ _ _ HDt HDa Z0 Z0' J0 F0 O0 S0).
+  - lia.
+  - lia.
+  - intros fa1 st1 post HS2 HRun. exact (tailS2 (T + dk + Dt) fa1 st1 post ltac:(lia) HS2 HRun).
+Qed.
+
+Lemma tailD0 T fa st evs :
+  T + max_rto_us + 2 * Dt + Da <= B -> JD0 u0 d0 dk T fa st -> Run fa st evs -> Res st evs.
+Proof.
+  intros HT. pose proof max_rto_us_pos as Hmr.
+  apply (phase_tail (JD0 u0 d0 dk T)
+           (fun fa s => S2 u0 d0 dk (T + dk + Dt) fa s \/ JD1 u0 d0 dk (T + max_rto_us) fa s) x T (T + dk + Da)).
+  - intros fa0 st0 (_ & _ & A). exact (zdl_clock x _ _ A).
+  - intros fa0 st0 (HA & _ & A). split; [exact (Ab_Fb _ _ HA)|]. pose proof (zdl_clock x _ _ A). lia.
+  - intros fa0 st0 ev0 st0' Z0 Z0' J0 F0 O0 S0.
+    destruct (D0_step _ _ _ _ _ _ _ _ HDt HDa Z0 Z0' J0 F0 O0 S0) as [[X | [X | [X | X]]] | X];
+      [left; left; exact X | left; right; left; exact X | left; right; right; left; exact X
+       | left; right; right; right; exact X | right; exact X].
+  - lia.
+  - lia.
+  - intros fa1 st1 post [HS2 | HD1] HRun.
+    + exact (tailS2 (T + dk + Dt) fa1 st1 post ltac:(lia) HS2 HRun).
+    + exact (tailD1 (T + max_rto_us) fa1 st1 post ltac:(lia) HD1 HRun).
+Qed.
+
+Lemma tailA Tc fa st evs :
+  Tc + 3 * max_rto_us + 2 * Dt + Da <= B ->
+  Ab u0 d0 dk fa st -> net_now st x <= Tc -> Run fa st evs -> Res st evs.
+Proof.
+  intros HT HA Hclk HRun. pose proof max_rto_us_pos as Hmr.
+  pose proof HRun as (R1 & _). pose proof (run_all_here _ _ _ R1) as (HZ & HM).
+  pose proof HA as ((HN & Ho & Hsy & Hb & Hdk & Hu & Hrd & Hrc & Hl) & Hw & Hadv).
+  pose proof (NI_live st x HN) as Ix. destruct (HN x) as (_ & _ & (_ & Htb) & _).
+  pose proof (zs_est x st HZ x) as Hst.
+  destruct (Z.eq_dec (s_remote_win_len (net_sock st x)) 0) as [Hw0 | Hwn].
+  - apply (tailD0 (Tc + 2 * max_rto_us) fa st evs ltac:(lia)); [|exact HRun].
+    split; [exact HA|]. split; [exact Hw0|]. split; [lia|].
+    assert (L : st_live (s_state (net_sock st x)) = true) by (rewrite Hst; reflexivity).
+    unfold net_sock, txl in *.
+    destruct (s_timer (ep_sock (net_get st x))) as [k|e| |e d1|e] eqn:Ht.
+    + destruct (li_K _ Ix L) as [Ha | (_ & Hw1)]; [rewrite Ht in Ha; discriminate|]. exact (Hw1 Hl Hw0).
+    + unfold timer_bounded in Htb. unfold net_now in *. lia.
+    + unfold net_now in *. lia.
+    + unfold timer_bounded in Htb. unfold net_now in *. lia.
+    + destruct (li_close _ Ix ltac:(rewrite Ht; reflexivity)) as [X | X]; rewrite Hst in X; discriminate.
+  - apply (tailD1 (Tc + max_rto_us) fa st evs ltac:(lia)); [|exact HRun].
+    split; [exact HA|]. split; [pose proof (li_win _ Ix); lia|]. split; [lia|].
+    intros e He. unfold net_sock in He. rewrite He in Htb. unfold timer_bounded in Htb. unfold net_now in *. lia.
+Qed.
+
+Lemma tailK0 Tc fa st evs :
+  Tc + 3 * max_rto_us + 2 * Dt + Da <= B ->
+  Fb u0 d0 dk fa st -> wposN 0 fa st -> net_now st x <= Tc -> Run fa st evs -> Res st evs.
+Proof.
+  intros HT HB Hw Hclk HRun. pose proof max_rto_us_pos as Hmr.
+  pose proof HRun as (R1 & _). pose proof (run_all_here _ _ _ R1) as (HZ & HM).
+  destruct (closed_or_open st HZ) as [Hcl | Hop].
+  - revert HRun. apply (phase_tail (JK0 u0 d0 dk Tc) (fun fa s => Ab u0 d0 dk fa s /\ net_now s x <= Tc) x Tc (Tc + dk + Da)).
+    + intros fa0 st0 (_ & _ & _ & A). exact A.
+    + intros fa0 st0 (A & _ & _ & C). split; [exact A | lia].
+    + intros fa0 st0 ev0 st0' Z0 Z0' J0 F0 _ S0. exact (JK0_step _ _ _ _ _ _ _ _ HDt HDa Z0 Z0' J0 F0 S0).
+    + lia.
+    + lia.
+    + intros fa1 st1 post (HA1 & Hc1) HRun1. exact (tailA Tc fa1 st1 post HT HA1 Hc1 HRun1).
+    + split; [exact HB|]. split; [exact Hw|]. split; [exact Hcl | exact Hclk].
+  - exact (tailA Tc fa st evs HT (conj HB (conj Hw Hop)) Hclk HRun).
+Qed.
+
+Lemma tailF n0 Ts fa st evs :
+  Ts + 3 * max_rto_us + 2 * Dt + Da <= B ->
+  JF n0 u0 d0 dk Ts fa st -> Run fa st evs -> Res st evs.
+Proof.
+  intros HT. pose proof max_rto_us_pos as Hmr.
+  apply (phase_tail (JF n0 u0 d0 dk Ts)
+           (fun fa s => Fb u0 d0 dk fa s /\ wposN 0 fa s /\ net_now s x <= Ts) x Ts (Ts + dk + Da)).
+  - intros fa0 st0 J0. exact (JF_clock _ _ _ _ _ _ _ J0).
+  - intros fa0 st0 J0. pose proof (JF_clock _ _ _ _ _ _ _ J0). destruct J0 as (A & _). split; [exact A | lia].
+  - intros fa0 st0 ev0 st0' Z0 Z0' J0 F0 _ S0. exact (JF_step _ _ _ _ _ _ _ _ _ HDt HDa (proj1 Z0) (proj1 Z0') J0 F0 S0).
+  - lia.
+  - lia.
+  - intros fa1 st1 post (HB1 & Hw1 & Hc1) HRun1. exact (tailK0 Ts fa1 st1 post HT HB1 Hw1 Hc1 HRun1).
+Qed.
+
+End Round.
+
+Definition Wz : Z := 3 * max_rto_us + 3 * Dt + Da.
+
+(* ONE ROUND.  Both ESTABLISHED, y has written nothing, and an octet of x is not yet acknowledged (or
+   not yet read): on every reliable run on which the safety facts hold, before x's clock has advanced
+   by more than Wz the run passes through a state in which SND.UNA of x has advanced or y's application
+   has read; the state occurs no later than Wz after the start and the rest of the run is again
+   reliable. *)
+Theorem zround : forall evs fa st st' u0 d0,
+  0 <= Dt -> 0 <= Da ->
+  NI st -> opts_ok st -> dl_sync Da fa st -> dlb fa st ->
+  run_all zsafe2 st evs -> fair_run Dt Da fa st evs -> once_run Dt Da fa st evs -> net_run st evs = Ok st' ->
+  una_off (net_get st x) = u0 -> read_off (net_get st y) = d0 ->
+  (0 < txl x st \/ d0 < rcv_off (net_get st y)) ->
+  net_now st x + Wz < net_now st' x ->
+  exists pre post fa1 st1,
+    evs = pre ++ post /\ net_run st pre = Ok st1 /\ net_run st1 post = Ok st' /\
+    run_all zsafe2 st1 post /\ fair_run Dt Da fa1 st1 post /\ once_run Dt Da fa1 st1 post /\
+    NI st1 /\ opts_ok st1 /\ dl_sync Da fa1 st1 /\ dlb fa1 st1 /\
+    G u0 d0 st1 /\ net_now st1 x <= net_now st x + Wz.
+Proof.
+  intros evs fa st st' u0 d0 HDt HDa HN Ho Hsy Hb HRun Hfair Honce Hrun Hu Hrd Hwork Hlate.
+  set (dk := net_now st y - net_now st x).
+  set (B := net_now st x + Wz).
+  pose proof max_rto_us_pos as Hmr.
+  assert (Hskf : net_now st' y - net_now st' x = dk) by (unfold dk; apply (net_run_skew2 _ _ _ y x Hrun)).
+  assert (HR : Run st' fa st evs) by (split; [exact HRun|]; split; [exact Hfair|]; split; [exact Honce | exact Hrun]).
+  change (Res u0 d0 B st' st evs).
+  pose proof (run_all_here _ _ _ HRun) as (HZ & HM).
+  destruct (Z_lt_le_dec d0 (rcv_off (net_get st y))) as [Hne | Hemp].
+  { (* y's buffer is not empty: the application reads *)
+    apply (tailR u0 d0 dk B st' HDt Hlate Hskf (net_now st y + Da) fa st evs); [unfold B, Wz, dk; lia | | exact HR].
+    split; [|split; [exact Hb | reflexivity]].
+    split; [exact HN|]. split; [exact Ho|]. split; [exact Hsy|]. split; [exact Hrd|]. split; [exact Hne|]. fold y.
+    split; [lia|].
+    destruct Hsy as (_ & Hr). specialize (Hr y). pose proof (zrx_is_diff x st) as Hd. fold y in Hd.
+    destruct (fa_rd fa y) as [t|]; [|lia]. exists t. split; [reflexivity|]. lia. }
+  assert (Hrc : rcv_off (net_get st y) = d0).
+  { destruct (zs_rcv x st HZ) as (_ & _ & ((Hl0 & _) & _) & _). fold y in Hl0. pose proof (rx_len_diff st) as Hd. lia. }
+  destruct Hwork as [Hl | X]; [|lia].
+  assert (HB : Fb u0 d0 dk fa st).
+  { split; [exact HN|]. split; [exact Ho|]. split; [exact Hsy|]. split; [exact Hb|]. split; [reflexivity|].
+    split; [exact Hu|]. split; [exact Hrd|]. split; [exact Hrc | exact Hl]. }
+  set (n0 := length (fa_dl fa x)).
+  destruct (old_tracked_dec (fa_dl fa x) n0) as [Hex | Hnone].
+  - apply (tailF u0 d0 dk B st' HDt HDa Hlate Hskf n0 (net_now st x + Dt) fa st evs); [unfold B, Wz; lia | | exact HR].
+    split; [exact HB|]. split.
+    { intros j q t Hj _ Hd. exfalso. unfold n0 in Hj. apply nth_error_None in Hj. congruence. }
+    split; [unfold n0; lia|]. split; [|exact Hex].
+    intros j t _ Hd. pose proof (Hb x t (nth_error_In _ _ Hd)). lia.
+  - apply (tailK0 u0 d0 dk B st' HDt HDa Hlate Hskf (net_now st x) fa st evs); [unfold B, Wz; lia | exact HB | | lia | exact HR].
+    intros j q t _ Hn Hd. exfalso.
+    destruct (Nat.lt_ge_cases j n0) as [Hj | Hj]; [exact (Hnone j t Hj Hd)|].
+    unfold n0 in Hj. apply nth_error_None in Hj. congruence.
 Qed.
